@@ -1,0 +1,9 @@
+//go:build verif
+
+package pptx
+
+// VerifIsFooterPlaceholder exposes isFooterPlaceholder (verification harness only).
+func VerifIsFooterPlaceholder(phType string) bool { return isFooterPlaceholder(phType) }
+
+// VerifIsHeaderPlaceholder exposes isHeaderPlaceholder (verification harness only).
+func VerifIsHeaderPlaceholder(phType string) bool { return isHeaderPlaceholder(phType) }
